@@ -1180,6 +1180,7 @@ pub fn generate(fam: &str, seed: u64, tier: &str, index: u64) -> Scenario {
         "clauses" => fam_clauses(seed, tier, index),
         "exh_clause" => fam_exh_clause(seed, tier, index),
         "exh_kind" => fam_exh_kind(seed, tier, index),
+        "big" => crate::big::fam_big(seed, tier, index),
         "interrupt_base" => fam_interrupt_base(seed, tier, index),
         other => panic!("harness: unknown family {other}"),
     }
